@@ -905,6 +905,10 @@ func genQuery(r *hlib.Rng, c *config) (query, string) {
 	case 4:
 		class += "ecs0"
 		q.HasOp = true
+		if class == "ecs0" && r.Chance(1, 2) {
+			// a name whose '8' map declares 0.0.0.0/0
+			q.Name = []string{"s2.z.test.", "s3.z.test.", "s5.z.test.", "s8.z.test."}[r.Intn(4)]
+		}
 		o := qopt{Code: 8, IsECS: true, Fam: 0, Src: 0, Scope: r.Intn(3) * 7, Addr: []int{}, Data: []int{}}
 		if r.Chance(1, 4) {
 			o.Addr = []int{1, 2, 3, 4}
@@ -915,7 +919,13 @@ func genQuery(r *hlib.Rng, c *config) (query, string) {
 		class += "ecs2-v4mapped"
 		q.HasOp = true
 		a := critical(r, nets, true)
-		src := []int{0, 64, 80, 96, 97, 104, 112, 119, 120, 121, 127, 128}[r.Intn(12)]
+		src := []int{0, 64, 80, 95, 96, 97, 104, 112, 119, 120, 121, 127, 128}[r.Intn(13)]
+		if r.Chance(1, 2) && len(nets) > 0 {
+			// around the length of a declared subnet (128-bit terms)
+			if l := nets[r.Intn(len(nets))].L + []int{-1, 0, 1}[r.Intn(3)]; l >= 0 && l <= 128 {
+				src = l
+			}
+		}
 		q.Opts = append(q.Opts, mkECS(2, a, src))
 		addOthers()
 	case 6:
